@@ -291,7 +291,7 @@ func vh11Run(t *testing.T, o *vhOut, id int, r *rand.Rand, s vh11Spec, big bool)
 				}
 			}
 		}
-		if s.lenp <= 30000 && (vhThorough() || s.lenp <= 7000) { // (longer list literals overflow coqc's stack; quick: short ones only)
+		if s.lenp <= 30000 { // (longer list literals overflow coqc's stack)
 			// content compared in Coq: buffers and file given by their generator parameters
 			stored := 0
 			if len(f.calls) > 0 && f.calls[len(f.calls)-1].Err.K != "nil" {
@@ -431,9 +431,6 @@ func TestVerifC11(t *testing.T) {
 				lenp := k*cs + d
 				if lenp < 0 || (cs >= 512 && k == 3 && !vhThorough()) {
 					continue
-				}
-				if !vhThorough() && (msize == 666 || msize == 667) && !(k == 1 && d >= 0) {
-					continue // (payload 512 like 665: the rounding boundary itself is what matters here)
 				}
 				for rep := 0; rep < reps; rep++ {
 					for _, write := range []bool{true, false} {
